@@ -176,11 +176,16 @@ def real_run_fails(kind, size, targets, p, n, sd):
     random.seed(sd)
     np.random.seed(sd)
     st = S.make_storage(kind, size, targets, p)
+    # targets include None (the documented default of update) and repeated values: alignment is positional
+    ylist = [None if (i + sd) % 3 == 1 else ((i * 7) % 4 if (i + sd) % 5 == 0 else 1000 + i) for i in range(n)]
     for i in range(n):
-        st.update({"id": i}, 1000 + i)
-        f = S.check_invariant(kind, size, targets, i + 1, st)
+        if ylist[i] is None and (i + sd) % 2 == 0:
+            st.update({"id": i})
+        else:
+            st.update({"id": i}, ylist[i])
+        f = S.check_invariant(kind, size, targets, i + 1, st, ylist)
         if f:
-            return f"after {i + 1} updates: {f}"
+            return f"after {i + 1} updates (targets {ylist[:i + 1]}): {f}"
     return None
 
 
